@@ -19,6 +19,11 @@ def secrets():
             lambda bits: sum(1 << b for b in bits)).filter(lambda v: 1 <= v < N),
         st.integers(1, (1 << 200) - 1),                      # leading zero bytes
         st.integers(0, (1 << 64) - 1).map(lambda v: (N - 1) ^ v).filter(lambda v: 1 <= v < N),
+        # last / first byte values that flag bytes and prefixes use (01 = "compressed" suffix of WIF payloads,
+        # 00, 80 = WIF version, 02/03/04 = public key prefixes)
+        st.tuples(st.integers(1, (N >> 8) - 1), st.sampled_from([0x01, 0x01, 0x00, 0x80])).map(lambda t: t[0] << 8 | t[1]),
+        st.tuples(st.integers(0, (1 << 248) - 1), st.sampled_from([0x01, 0x02, 0x03, 0x04, 0x80])).map(
+            lambda t: t[1] << 248 | t[0]).filter(lambda v: 1 <= v < N),
     )
 
 
